@@ -115,6 +115,10 @@ struct World {
     std::unique_ptr<DocT> doc;
     MV model;
   };
+#ifdef VF_C13_POOL
+  // (declared before the documents: destroyed after them) pools that belong to the caller; every other document is built on one
+  std::vector<std::unique_ptr<MemoryPoolAllocator<>>> ext;
+#endif
   std::vector<Slot> docs;
   bool maps_enabled = true;
   std::vector<std::string> trace;
@@ -122,7 +126,15 @@ struct World {
 
   explicit World(size_t n) {
     docs.resize(n);
+#ifdef VF_C13_POOL
+    for (size_t i = 0; i < n; i++) {
+      ext.emplace_back(new MemoryPoolAllocator<>());
+      if (i % 2 == 1) docs[i].doc.reset(new DocT(ext[i].get()));
+      else docs[i].doc.reset(new DocT());
+    }
+#else
     for (auto& d : docs) d.doc.reset(new DocT());
+#endif
   }
 
   void ev(const char* e) { events[e]++; }
@@ -733,12 +745,19 @@ static void run_case(Src& s, Case& c, const char* alloc_name) {
 
 static int g_n = 0;
 static void property(Src& s, Case& c) {
-#ifdef VF_C13
+#if defined(VF_C13_POOL)
+  // the document operations of C13 on pool documents, every other one bound to a pool the caller owns (move / Swap exchange the
+  // allocator bindings; ASan watches the chunks)
+  run_case<Document>(s, c, "pool+caller-owned-pools");
+  g_n++;
+#elif defined(VF_C13)
   ledger().reset();
   run_case<GenericDocument<DNode<TrackingAllocator>>>(s, c, "tracking");
   g_n++;
+#endif
+#if defined(VF_C13)
   if (__lsan_do_recoverable_leak_check && (c.replay || (c.counting && g_n % 256 == 0)) && __lsan_do_recoverable_leak_check())
-    c.fail("LeakSanitizer: memory not owned by the tracking allocator leaked (parser stacks / std::realloc)");
+    c.fail("LeakSanitizer: memory leaked (parser stacks / std::realloc / pool chunks)");
 #else
   if (s.coin(1, 2)) run_case<Document>(s, c, "pool");
   else run_case<GenericDocument<DNode<SimpleAllocator>>>(s, c, "freeing");
